@@ -222,6 +222,7 @@ func c08(c *Ctx) {
 				return sameVar(info, b, v)
 			}
 			var newRep types.Object
+			newPath := ""
 			gq := ax.FG(fn)
 			// locals with a single definition stand for that definition (delta := …, prev := s.reported[key])
 			resolve := func(e ast.Expr) ast.Expr {
@@ -238,13 +239,37 @@ func c08(c *Ctx) {
 				}
 				return unparen(e)
 			}
+			// the map the previous cycle's values are read from: the reported field itself, or a map held inside it when the
+			// field became a small struct (reported.last) — named by its access path
+			underRep := func(e ast.Expr) bool {
+				for cur := unparen(e); ; {
+					if isField(info, cur, fRep) {
+						return true
+					}
+					sel, isSel := cur.(*ast.SelectorExpr)
+					if !isSel {
+						return false
+					}
+					cur = unparen(sel.X)
+				}
+			}
+			repPath := ""
 			isDelta := func(e ast.Expr) bool {
 				be, ok := resolve(e).(*ast.BinaryExpr)
 				if !ok || be.Op != token.SUB || !isValN(resolve(be.X)) {
 					return false
 				}
 				ie, ok := resolve(be.Y).(*ast.IndexExpr)
-				return ok && isField(info, ie.X, fRep) && sameVar(info, ie.Index, k)
+				if !ok || !underRep(ie.X) || !sameVar(info, ie.Index, k) {
+					return false
+				}
+				if _, isMap := info.TypeOf(ie.X).Underlying().(*types.Map); !isMap {
+					return false
+				}
+				if p := pathKey(info, ie.X); p != "" {
+					repPath = p
+				}
+				return true
 			}
 			deltaSeen, valueStored, repStored := false, false, false
 			ast.Inspect(rng.Body, func(nd ast.Node) bool {
@@ -258,7 +283,8 @@ func c08(c *Ctx) {
 
 				if ie, ok := unparen(as.Lhs[0]).(*ast.IndexExpr); ok && sameVar(info, ie.Index, k) && isValN(as.Rhs[0]) {
 					newRep = objOf(info, ie.X)
-					repStored = true
+					newPath = pathKey(info, ie.X)
+					repStored = newPath != ""
 				}
 				return true
 			})
@@ -273,14 +299,43 @@ func c08(c *Ctx) {
 				}
 			}
 			valueStored = nVal > 0 && nVal == nDelta
-			replaced := false
+			// the map read from is replaced wholesale by the map this cycle's values were stored into, and that one was made
+			// fresh in this call (both named by access path: a local, or a second map kept next to the first)
+			replaced, freshN, staleN := false, 0, 0
 			inspectNoLit(fn.Body(), func(nd ast.Node) bool {
-				if r := assignRHS(nd, func(e ast.Expr) bool { return isField(info, e, fRep) }); r != nil && newRep != nil && sameVar(info, r, newRep) {
-					replaced = true
+				as, ok := nd.(*ast.AssignStmt)
+				if !ok || len(as.Lhs) != len(as.Rhs) {
+					return true
+				}
+				for i, l := range as.Lhs {
+					lp := pathKey(info, l)
+					if lp == "" {
+						continue
+					}
+					if lp == repPath && repPath != "" && newPath != "" && pathKey(info, as.Rhs[i]) == newPath {
+						replaced = true
+					}
+					if lp == newPath && newPath != "" {
+						switch r := unparen(as.Rhs[i]).(type) {
+						case *ast.CallExpr:
+							if builtinName(info, r) == "make" {
+								freshN++
+							} else {
+								staleN++
+							}
+						case *ast.CompositeLit:
+							freshN++
+						default:
+							if !isNilIdent(info, as.Rhs[i]) {
+								staleN++
+							}
+						}
+					}
 				}
 				return true
 			})
-			fresh := newRep != nil && ax.freshSliceOrMap(fn, newRep)
+			_ = newRep
+			fresh := freshN >= 1 && staleN == 0
 			switch {
 			case !deltaSeen:
 				good, why = false, "no `value.n − reported[key]` with the range key"
